@@ -9,10 +9,14 @@
     generator) return equal results and stay so related under EVERY continuation of facade calls (run_sim) -
     together with the first theorem this is the property's "indistinguishable under every later sequence of calls"
     for context-free bandits, modulo the generator position.
-    ..._partial: linear / neighbourhood / cluster / tree states are compared with the implementation by the
-    queried-versus-unqueried twin relation. *)
+    Radius / KNearest / LSHNearest / Clusters / TreeBandit: predict and predict_expectations return the implementation
+    state ITSELF (Leibniz equal; the worker copies are discarded) and the fitted flag; only the bandit's generator moves.
+    LinGreedy / LinUCB: the state is returned unchanged; LinTS: only the private generators of the per-arm regressions
+    advance - every matrix, vector, scaler, status and the arm list are the same.
+    ..._partial: that the model's "discarded worker copies" is what the code does (deepcopy per worker) is the
+    queried-versus-unqueried twin relation on the implementation. *)
 From Coq Require Import List ZArith Bool Arith QArith Qcanon Permutation.
-From MW Require Import Num Assoc AssocFacts Rng Par CF CFInv CFClean CFForget CFSpec Matrix Lin Warm WarmInv Nbr NbrFacts NbrIndep LshFacts Clu Tree CellFacts Mab FacadeCF FacadeArms MoreFacts NumLaws CFAlg Sim Extra QcInst OrderFacts ExpIrrel LinInv FacadeLin LpInv NbrInv CluTreeInv FacadeAll ToyFacts.
+From MW Require Import Num Assoc AssocFacts Rng Par CF CFInv CFClean CFForget CFSpec Matrix Lin Warm WarmInv Nbr NbrFacts NbrIndep LshFacts Clu Tree CellFacts Mab FacadeCF FacadeArms MoreFacts NumLaws CFAlg Sim Extra QcInst OrderFacts ExpIrrel LinInv FacadeLin LpInv NbrInv CluTreeInv FacadeAll ToyFacts C09All C10All LinForget LinSim MatrixFacts LinSpec.
 Import ListNotations.
 
 Theorem C10_query_changes_only_generator_and_last_sample_partial :
@@ -51,5 +55,37 @@ Theorem C10_queries_keep_the_invariant_all_policies :
   rng_lengths_ok RG -> imp_inv (m_imp m) -> imp_inv (m_imp (fst (step N aeqb RG m o))).
 Proof. exact @step_preserves_imp_inv. Qed.
 Print Assumptions C10_queries_keep_the_invariant_all_policies.
+
+Theorem C10_neighbourhood_cluster_tree_state_untouched :
+  forall (R A G : Type) (N : Num R) (aeqb : A -> A -> bool) (RG : RngOps R G) 
+    (m : (@mab R A G)) (cx : option (@ctxs R)) (orc : (@oracle R A)) (is_p : bool),
+  is_nbhd (m_imp m) ->
+  let o := if is_p then Predict cx orc else PredictExp cx orc in
+  m_imp (fst (step N aeqb RG m o)) = m_imp m /\ m_fitted (fst (step N aeqb RG m o)) = m_fitted m.
+Proof. exact @query_keeps_neighbourhood_state. Qed.
+Print Assumptions C10_neighbourhood_cluster_tree_state_untouched.
+
+Theorem C10_linear_query_moves_only_private_generators :
+  forall (R A G : Type) (N : Num R) (aeqb : A -> A -> bool) (RG : RngOps R G),
+  (forall x y : A, aeqb x y = true <-> x = y) ->
+  forall (m : (@mab R A G)) (s : (@lin R A G)) (cx : option (@ctxs R)) (orc : (@oracle R A)) (is_p : bool),
+  m_imp m = ILin s ->
+  lin_keys_ok s ->
+  let o := if is_p then Predict cx orc else PredictExp cx orc in
+  exists s' : (@lin R A G),
+    m_imp (fst (step N aeqb RG m o)) = ILin s' /\
+    l_kind s' = l_kind s /\
+    l_alpha s' = l_alpha s /\
+    l_eps s' = l_eps s /\
+    l_l2 s' = l_l2 s /\
+    l_scale s' = l_scale s /\
+    l_nf s' = l_nf s /\
+    l_arms s' = l_arms s /\
+    l_exp s' = l_exp s /\
+    l_status s' = l_status s /\
+    models_eq_mod_rng (l_models s) (l_models s') /\
+    (l_kind s <> RTs -> s' = s) /\ m_fitted (fst (step N aeqb RG m o)) = m_fitted m.
+Proof. exact @query_keeps_linear_model. Qed.
+Print Assumptions C10_linear_query_moves_only_private_generators.
 
 
